@@ -307,6 +307,13 @@ def _run_once(case, with_rejects, log, d):
         saved = (hl.__dict__.get('gzip'), hl.__dict__.get('time'))
         hl.gzip = fs.gzip_module()
         hl.time = SimClock(p['clock'], jump_at=max(1, len(reads) // 2))
+        real_gz_open = gzip.open
+
+        def _gz_router(path, mode='rb', *a, **k):      # whatever way the writer reaches gzip.open, /sim/ paths end up in the SimFS
+            if isinstance(path, str) and path.startswith('/sim/'):
+                return fs._open(path, mode, gz=True, level=(a[0] if a else k.get('compresslevel', 9)))
+            return real_gz_open(path, mode, *a, **k)
+        gzip.open = _gz_router
     stdout = io.StringIO()
     logf = io.StringIO()
     result = None
@@ -336,6 +343,7 @@ def _run_once(case, with_rejects, log, d):
     finally:
         if saved is not None:
             hl.gzip, hl.time = saved
+            gzip.open = real_gz_open
     # collect outputs: name -> list of per-mate record lists
     outs = {'demux': {}, 'rejects': {}}
     corrupt = []
@@ -414,7 +422,8 @@ def _check(case, run, with_rejects, viol, probe):
         else:
             writes.setdefault(cur, []).append(ev[1:])
     n_acc = n_rej = 0
-    for i in range(min(cutoff, n)):
+    seam_ok = any(ev[0] == 'r' for ev in run['events']) or n == 0       # (no read events = the iterator seam was not effective: files oracle only)
+    for i in range(min(cutoff, n) if seam_ok else 0):
         ws = writes.get(i, [])
         sinks = [w[0] for w in ws]
         if with_rejects and len(ws) != 1:
